@@ -24,9 +24,26 @@ if [ ! -x "$B/simgen" ]; then
 fi
 "$B/simgen" "$REPO" "$B/sim/goplugin" > "$B/simgen.log" || { echo "BUILD-ERROR: rewriting go-plugin failed" >&2; cat "$B/simgen.log" >&2; exit 2; }
 cd "$B/sim" || exit 2
+# grpc-go seeds its jitter/backoff generator from the wall clock at package
+# init. Build against a copy of the module (outside /repo, /verif and the
+# module cache, at a stable path so that the build cache keeps working) in
+# which that one file draws from math/rand's top-level functions instead, which
+# the runtime overlay feeds from the seeded stream.
+GRPCVER=$($GO list -m -f '{{.Version}}' google.golang.org/grpc 2>/dev/null)
+GRPCDIR=$($GO list -m -f '{{.Dir}}' google.golang.org/grpc 2>/dev/null)
+[ -f "$GRPCDIR/internal/grpcrand/grpcrand.go" ] || { echo "BUILD-ERROR: cannot locate grpc-go's grpcrand.go" >&2; exit 2; }
+DEP=/var/tmp/verif-deps/grpc@$GRPCVER
+if [ ! -f "$DEP/.patched" ]; then
+  rm -rf "$DEP.tmp.$$" && mkdir -p /var/tmp/verif-deps && cp -r "$GRPCDIR" "$DEP.tmp.$$" && chmod -R u+w "$DEP.tmp.$$" || exit 2
+  python3 /verif/sim/rtoverlay/grpcrand.py "$GRPCDIR/internal/grpcrand/grpcrand.go" "$DEP.tmp.$$/internal/grpcrand/grpcrand.go" || { echo "BUILD-ERROR: grpcrand patch" >&2; exit 2; }
+  touch "$DEP.tmp.$$/.patched"
+  rm -rf "$DEP"; mv "$DEP.tmp.$$" "$DEP" 2>/dev/null || rm -rf "$DEP.tmp.$$"
+fi
+printf '\nreplace google.golang.org/grpc => %s\n' "$DEP" >> go.mod
+OVJ="$OV/overlay.json"
 if [ "$RACE" = race ]; then
-  $GO test -c -race -overlay "$OV/overlay.json" -o "$B/worker.race" ./worker > "$B/build.log" 2>&1 || { echo "BUILD-ERROR: worker (race) does not compile" >&2; head -50 "$B/build.log" >&2; exit 2; }
+  $GO test -c -race -overlay "$OVJ" -o "$B/worker.race" ./worker > "$B/build.log" 2>&1 || { echo "BUILD-ERROR: worker (race) does not compile" >&2; head -50 "$B/build.log" >&2; exit 2; }
 else
-  $GO test -c -overlay "$OV/overlay.json" -o "$B/worker" ./worker > "$B/build.log" 2>&1 || { echo "BUILD-ERROR: worker does not compile" >&2; head -50 "$B/build.log" >&2; exit 2; }
+  $GO test -c -overlay "$OVJ" -o "$B/worker" ./worker > "$B/build.log" 2>&1 || { echo "BUILD-ERROR: worker does not compile" >&2; head -50 "$B/build.log" >&2; exit 2; }
 fi
 exit 0
